@@ -524,8 +524,9 @@ func (a *Adapter) FileGet(fid string) (*t.FileDef, error) {
 func (a *Adapter) FileDeleteUnused(olderThan time.Time, limit int) ([]string, error) {
 	a.lock()
 	defer a.mu.Unlock()
-	if err := a.enter("FileDeleteUnused", true, ""); err != nil {
-		return nil, err
+	failed := a.enter("FileDeleteUnused", true, "")
+	if failed != nil && !a.plan.AtCommit {
+		return nil, failed
 	}
 	s := a.st
 	var locations []string
@@ -548,6 +549,11 @@ func (a *Adapter) FileDeleteUnused(olderThan time.Time, limit int) ([]string, er
 		if f.Location != "" {
 			locations = append(locations, f.Location)
 		}
+	}
+	if failed != nil {
+		// Plan.AtCommit: the SQL adapters end with `return locations, tx.Commit()`: when the commit
+		// fails the records stay (rolled back) and the caller still gets the selected locations
+		return locations, failed
 	}
 	s.Files = filter(s.Files, func(f *fileRow) bool { return !gone[f.ID] })
 	a.wrote()
